@@ -176,7 +176,7 @@ func Load(opts Options) (*Program, error) {
 		env = append(env, "GOARCH="+opts.GOARCH)
 	}
 	cfg := &packages.Config{
-		Mode:  packages.LoadAllSyntax,
+		Mode:  packages.LoadAllSyntax | packages.NeedModule,
 		Dir:   abs,
 		Env:   env,
 		Tests: false,
@@ -228,9 +228,21 @@ func Load(opts Options) (*Program, error) {
 	var nrep *normal.Report
 	if os.Getenv("VERIF_NO_NORMALISE") == "" && !opts.NoNormalise {
 		imp := importerOf(root)
+		// the language version decides the meaning of the program (loop variables are per
+		// iteration only from go1.22 on): it must be the module's, as in the real build
 		goVersion := ""
 		if root.Module != nil && root.Module.GoVersion != "" {
 			goVersion = "go" + root.Module.GoVersion
+		} else if b, err := os.ReadFile(filepath.Join(abs, "go.mod")); err == nil {
+			for _, line := range strings.Split(string(b), "\n") {
+				f := strings.Fields(line)
+				if len(f) == 2 && f[0] == "go" {
+					goVersion = "go" + f[1]
+				}
+			}
+		}
+		if goVersion == "" {
+			return nil, infra("cannot determine the module's go version (go.mod)")
 		}
 		check := func(files []*ast.File) (*types.Package, *types.Info, error) {
 			info := &types.Info{
